@@ -554,3 +554,150 @@ func TestCraftedType3Responses(t *testing.T) {
 		s.Sample(func() any { return map[string]any{"request": rt.Hex(reqBytes), "honest_response": rt.Hex(honestResp)} })
 	})
 }
+
+// TestUnusualCreationArguments: request creation with arguments that are legal for the API but never occur in the
+// examples, followed by responses computed by the (honest) issuer code. The oracle is C02's and nothing more: whatever
+// finalization returns without an error is a token that verifies under the pinned key and is bound to the request.
+//   - type 2: salts of a length other than 48 handed to CreateTokenRequestWithBlind. The issuer signs whatever it is
+//     given; the token is a standard type-2 token only if it verifies as RSASSA-PSS/SHA-384 with salt length 48.
+//   - types 1, 5: the key-id ARGUMENT is the same for two different issuer keys used in turn. The response computed under
+//     the FIRST key for the request made for the SECOND key is a foreign-key response and must be rejected.
+func TestUnusualCreationArguments(t *testing.T) {
+	s := rt.S("unusual-creation-arguments").SetRule("type 2: fixed-blind creation with salt length in {0,1,20,32,47,49,64,48}, honest issuer evaluation, finalize: error, or a token verifying as RSASSA-PSS(SHA-384, sLen=48) over the token input; types 1/5: one key-id argument used with key A (request created, optionally finalized) and then with key B; B's request answered by issuer A must be refused, answered by issuer B it is refused or yields tokens valid under B. A panic is a violation. non-trivial = every case; distinct by (kind, arguments)")
+	rt.Check(t, 60, 8000, func(t *rapid.T) {
+		defer rt.Entropy(gen.Seed().Draw(t, "entropy"))()
+		chal, nonce := gen.Challenge().Draw(t, "challenge"), gen.Bytes32().Draw(t, "nonce")
+		s.Eval()
+		switch kind := gen.Uniform(t, 3, "kind"); kind {
+		case 0:
+			k := gen.RSAPool()[gen.RSAKey().Draw(t, "rsakey")]
+			issuer := type2.NewBasicPublicIssuer(k)
+			keyID := issuer.TokenKeyID()
+			saltLen := gen.Pick(t, []int{0, 1, 20, 32, 47, 49, 64, 48}, "saltLen")
+			salt := gen.Bytes(t, saltLen, saltLen, "salt")
+			s.Class(fmt.Sprintf("type2-salt-%d", saltLen))
+			s.Nontrivial([]byte{2, byte(saltLen)}, chal, nonce, salt)
+			st, err := type2.NewBasicPublicClient().CreateTokenRequestWithBlind(chal, nonce, keyID, &k.PublicKey, gen.RSABlind(t, k.N), salt)
+			if err != nil {
+				s.Class("creation-refused")
+				return
+			}
+			resp, err := issuer.Evaluate(st.Request())
+			if err != nil {
+				s.Class("issuer-refused")
+				return
+			}
+			var tok tokens.Token
+			o := rt.GuardLite(func() { tok, err = st.FinalizeToken(resp) })
+			if o.Panic != nil {
+				rt.Fail(t, "C02/type2/salt-length/panic", "finalization panicked (%v) for a request created with a %d-byte salt", o.Panic, saltLen)
+				return
+			}
+			if err != nil {
+				s.Class("rejected")
+				return
+			}
+			s.Class("accepted")
+			if verr := gen.VerifyPSS(&k.PublicKey, gen.AuthInput(2, nonce, chal, keyID), tok.Authenticator); verr != nil {
+				rt.Fail(t, "C02/type2/salt-length/invalid-token", "request created with a %d-byte salt: finalization returned a token without an error, but it does not verify as a type-2 token (RSASSA-PSS, SHA-384, salt length 48): %v", saltLen, verr)
+				return
+			}
+			if berr := gen.CheckTokenBinding(tok, 2, nonce, chal, keyID); berr != nil {
+				rt.Fail(t, "C02/type2/salt-length/invalid-token", "token not bound to the request: %v", berr)
+			}
+		default:
+			typ := uint16(1)
+			suite := oprf.SuiteP384
+			if kind == 2 {
+				typ, suite = 5, oprf.SuiteRistretto255
+			}
+			seed := gen.Seed().Draw(t, "keyseed")
+			kA, kB := gen.OPRFKey(suite, append(append([]byte{}, seed...), 'A')), gen.OPRFKey(suite, append(append([]byte{}, seed...), 'B'))
+			keyID := gen.Bytes32().Draw(t, "keyID")
+			if rapid.Bool().Draw(t, "idOfFirstKey") {
+				keyID = gen.OPRFKeyID(kA)
+			}
+			finalizeFirst := rapid.Bool().Draw(t, "finalizeFirst")
+			s.Class(fmt.Sprintf("type%d-same-key-id", typ))
+			s.Nontrivial([]byte{byte(typ)}, keyID, seed, chal, nonce)
+			tn := gen.TypeName(typ)
+			// create (and in half the cases finalize) under key A, then create under key B with the same id
+			var evalA, evalB func() ([]byte, error)
+			var finB func([]byte) ([]tokens.Token, error)
+			if typ == 1 {
+				c := type1.NewBasicPrivateClient()
+				stA, err := c.CreateTokenRequest(chal, nonce, keyID, kA.Public())
+				if err != nil {
+					t.Fatalf("harness health: creation failed: %v", err)
+				}
+				if finalizeFirst {
+					if r, err := type1.NewBasicPrivateIssuer(kA).Evaluate(stA.Request()); err == nil {
+						_, _ = stA.FinalizeToken(r)
+					}
+				}
+				stB, err := c.CreateTokenRequest(chal, nonce, keyID, kB.Public())
+				if err != nil {
+					t.Fatalf("harness health: creation failed: %v", err)
+				}
+				evalA = func() ([]byte, error) { return type1.NewBasicPrivateIssuer(kA).Evaluate(stB.Request()) }
+				evalB = func() ([]byte, error) { return type1.NewBasicPrivateIssuer(kB).Evaluate(stB.Request()) }
+				finB = func(r []byte) ([]tokens.Token, error) {
+					tk, err := stB.FinalizeToken(r)
+					return []tokens.Token{tk}, err
+				}
+			} else {
+				c := type5.NewBatchedPrivateClient()
+				stA, err := c.CreateTokenRequest(chal, [][]byte{nonce}, keyID, kA.Public())
+				if err != nil {
+					t.Fatalf("harness health: creation failed: %v", err)
+				}
+				if finalizeFirst {
+					if r, err := type5.NewBatchedPrivateIssuer(kA).Evaluate(stA.Request()); err == nil {
+						_, _ = stA.FinalizeTokens(r)
+					}
+				}
+				stB, err := c.CreateTokenRequest(chal, [][]byte{nonce}, keyID, kB.Public())
+				if err != nil {
+					t.Fatalf("harness health: creation failed: %v", err)
+				}
+				evalA = func() ([]byte, error) { return type5.NewBatchedPrivateIssuer(kA).Evaluate(stB.Request()) }
+				evalB = func() ([]byte, error) { return type5.NewBatchedPrivateIssuer(kB).Evaluate(stB.Request()) }
+				finB = stB.FinalizeTokens
+			}
+			check := func(resp []byte, class string, mustReject bool) bool {
+				var toks []tokens.Token
+				var err error
+				o := rt.GuardLite(func() { toks, err = finB(append([]byte{}, resp...)) })
+				if o.Panic != nil {
+					rt.Fail(t, fmt.Sprintf("C02/%s/%s/panic", tn, class), "finalization panicked: %v", o.Panic)
+					return false
+				}
+				if err != nil {
+					s.Class(class + ":rejected")
+					return true
+				}
+				s.Class(class + ":accepted")
+				for _, tok := range toks {
+					if !bytes.Equal(tok.Authenticator, gen.VOPRFOutput(suite, kB, gen.AuthInput(typ, nonce, chal, keyID))) || gen.CheckTokenBinding(tok, typ, nonce, chal, keyID) != nil {
+						rt.Fail(t, fmt.Sprintf("C02/%s/%s/invalid-token", tn, class), "the key-id argument %x was used with key A and then with key B; finalizing B's request with a response computed under %s returned a token that is not valid under the pinned key B", keyID, class)
+						return false
+					}
+				}
+				if mustReject {
+					rt.Fail(t, fmt.Sprintf("C02/%s/%s/accepted", tn, class), "response under a foreign key accepted")
+					return false
+				}
+				return true
+			}
+			if r, err := evalA(); err == nil {
+				if !check(r, "same-key-id-foreign-key", true) {
+					return
+				}
+			}
+			if r, err := evalB(); err == nil {
+				check(r, "same-key-id-own-key", false)
+			}
+		}
+		s.Sample(func() any { return map[string]any{"challenge": rt.Hex(chal), "nonce": rt.Hex(nonce)} })
+	})
+}
